@@ -227,12 +227,11 @@ def audit(theorems, timeout=3000):
             ["lake", "env", "lean", "SpowtdModel/Audit.lean"],
             cwd=LEAN_DIR, capture_output=True, text=True, timeout=timeout,
         )
-        if p.returncode != 0:
+        axioms = parse_axioms(p.stdout)
+        if p.returncode != 0 and not axioms:
             out["ok"] = False
             out["problems"].append("Audit.lean failed: " + (p.stdout + p.stderr)[-800:])
-            axioms = {}
         else:
-            axioms = parse_axioms(p.stdout)
             with open(cache, "w") as fh:
                 json.dump({"key": key, "axioms": {k: sorted(v) for k, v in axioms.items()}}, fh)
     for t in theorems:
